@@ -188,6 +188,12 @@ pub struct World {
     pub regions: Vec<RegionSpec>,
     /// sparse word overlay on top of region contents: (address, 8 bytes little endian)
     pub plants: Vec<(u64, u64)>,
+    /// address ranges (start, length) inside mapped regions that no remote-read strategy can read,
+    /// whatever the map says: guard pages installed with madvise(MADV_GUARD_INSTALL) inside an rw-
+    /// mapping (glibc >= 2.42 guards thread stacks that way; /proc/pid/maps shows nothing), the
+    /// [vsyscall] page
+    #[serde(default)]
+    pub no_remote: Vec<(u64, u64)>,
     pub files: Vec<FileSpec>,
     pub fds: Vec<FdSpec>,
     /// (key, value) pairs served in /proc/pid/auxv
